@@ -290,6 +290,27 @@ def run(ctx):
                "the fan period register follows 255 - 255 x V/2.55 V (255 at standstill, 0 at full speed)", fb.loc(),
                "fan_rpm %r -> period %s, documented range [%d,%d]" % (rpm, bnd, lo, hi),
                "A4 float intervals with Rust's saturating float->int casts")
+    # the law pointwise: 255 x (byte/100 V) / 2.55 V = byte exactly, so the period register must read 255 - byte for every
+    # byte written to the DAC (write, then read of the period, each byte on its own; float operations in their MIR types)
+    bad_fan = []
+    for byte in range(256):
+        st_f = absint.State()
+        I.heap_counter = 0
+        ba_f = I.new_alloc(st_f, "board", board())
+        I.events.clear()
+        I.run_body(p.need_body(BOARD + "::set_digital_output1"), [Ref(ba_f, (), True), byte], st_f, 0)
+        per = I.run_body(fb, [Ref(ba_f)], st_f, 0)
+        # the two registers are integers: speed = floor(4200 x V / 2.55 V) with V = byte/100 V, i.e. floor(4200 x byte / 255),
+        # and period = 255 - floor(255 x speed / 4200), both in exact arithmetic
+        rpm_ref = (4200 * byte) // 255
+        per_ref = 255 - (255 * rpm_ref) // 4200
+        rpm_got = I.load(st_f, ba_f, _path(p, "fan_rpm"))
+        if per != per_ref or rpm_got != rpm_ref:
+            bad_fan.append("DAC byte %d -> speed %s, period %s (law: %d, %d)" % (byte, D.short(rpm_got), D.short(per), rpm_ref, per_ref))
+    chk.ob("fan-period/pointwise", not bad_fan,
+           "for every DAC byte the fan speed is floor(4200 x V/2.55 V) and the period register 255 - floor(255 x speed/4200) "
+           "(the documented law with the registers' integer truncation, in exact arithmetic)",
+           fb.loc(), "; ".join(bad_fan[:4]) or "256 bytes", "A4 with the byte concrete: binary32/binary64 operations as in the MIR")
     get, r, bad, w, b = call("set_digital_output1", board(), D.norm_rng(0, 255))
     rpm = get("fan_rpm")
     bnd = D.bounds(rpm) if D.is_scalar(rpm) else None
